@@ -149,6 +149,26 @@ func (p *MetadataPersister) MoveHeader(ctx context.Context, oldName string, newN
 	newName = p.getSanitizedPath(ctx, newName)
 	oldName = p.getSanitizedPath(ctx, oldName)
 
+	// The header that is moved replaces whatever still occupies its new primary key: a deleted header, or the header
+	// an earlier replay of this move produced. Without this the rename below fails with a UNIQUE constraint violation
+	if newName != oldName {
+		if _, err := queries.Raw(
+			fmt.Sprintf(
+				`delete from %v where %v = ? and %v in (select %v from %v where %v = ?);`,
+				models.TableNames.Headers,
+				models.HeaderColumns.Name,
+				models.HeaderColumns.Linkname,
+				models.HeaderColumns.Linkname,
+				models.TableNames.Headers,
+				models.HeaderColumns.Name,
+			),
+			newName,
+			oldName,
+		).ExecContext(ctx, p.sqlite.DB); err != nil {
+			return err
+		}
+	}
+
 	// We can't do this with `dbhdr.Update` because we are renaming the primary key
 	n, err := queries.Raw(
 		fmt.Sprintf(
